@@ -21,6 +21,8 @@ import (
 	"math/big"
 	"math/rand"
 	"sort"
+	"strconv"
+	"strings"
 	"testing"
 	"time"
 
@@ -132,12 +134,12 @@ type c18Harness struct {
 type c18Evictor struct{ h *c18Harness }
 
 func (e *c18Evictor) Filter(pod *corev1.Pod) bool {
-	p := e.h.cur.in.Pods[pod.Name]
+	p := e.h.cur.in.Pods[c18ID(pod)]
 	if !p.Pass {
 		return false
 	}
 	for _, g := range e.h.cur.gone { // already being evicted / migrated (it stays listed on its node for the rest of the round)
-		if g == pod.Name {
+		if g == c18ID(pod) {
 			return false
 		}
 	}
@@ -152,14 +154,27 @@ func (e *c18Evictor) Filter(pod *corev1.Pod) bool {
 }
 func (e *c18Evictor) PreEvictionFilter(pod *corev1.Pod) bool { return true }
 func (e *c18Evictor) Evict(ctx context.Context, pod *corev1.Pod, opts framework.EvictOptions) bool {
-	ok := e.h.cur.in.Pods[pod.Name].EOK
+	ok := e.h.cur.in.Pods[c18ID(pod)].EOK
 	e.h.cur.calls++
-	e.h.cur.called = append(e.h.cur.called, pod.Name)
+	e.h.cur.called = append(e.h.cur.called, c18ID(pod))
 	if ok {
-		e.h.cur.gone = append(e.h.cur.gone, pod.Name)
+		e.h.cur.gone = append(e.h.cur.gone, c18ID(pod))
 	}
-	e.h.rec.Emit(vu.Ev{"op": "evict", "pod": pod.Name, "ok": ok, "from": e.h.cur.in.Pods[pod.Name].Node})
+	e.h.rec.Emit(vu.Ev{"op": "evict", "pod": c18ID(pod), "ok": ok, "from": e.h.cur.in.Pods[c18ID(pod)].Node})
 	return ok
+}
+
+// the pods of a round are spread over two namespaces and pairs of them share their NAME (p6 / p7 are ns0/w3 and ns1/w3):
+// a pod is namespace + name, never the name alone; the script id travels in a label
+const c18IDLabel = "verif/id"
+
+func c18ID(pod *corev1.Pod) string { return pod.Labels[c18IDLabel] }
+func c18NsName(id string) (string, string) {
+	k, err := strconv.Atoi(strings.TrimPrefix(id, "p"))
+	if err != nil {
+		return "default", id
+	}
+	return fmt.Sprintf("ns%d", k%2), fmt.Sprintf("w%d", k/2)
 }
 
 type c18Handle struct {
@@ -309,14 +324,15 @@ func (h *c18Harness) runRound(in c18Ev) []string {
 		if p.Prod {
 			prio = string(extension.PriorityProd)
 		}
+		ns, name := c18NsName(pn)
 		pod := &corev1.Pod{
-			ObjectMeta: metav1.ObjectMeta{Namespace: "default", Name: pn, Labels: map[string]string{extension.LabelPodPriorityClass: prio}},
+			ObjectMeta: metav1.ObjectMeta{Namespace: ns, Name: name, Labels: map[string]string{extension.LabelPodPriorityClass: prio, c18IDLabel: pn}},
 			Spec:       corev1.PodSpec{NodeName: h.realName(p.Node), Containers: []corev1.Container{{Name: "c"}}},
 			Status:     corev1.PodStatus{Phase: corev1.PodRunning},
 		}
 		r.byNode[h.realName(p.Node)] = append(r.byNode[h.realName(p.Node)], pod)
 		if p.Metric {
-			perNode[p.Node] = append(perNode[p.Node], &slov1alpha1.PodMetricInfo{Namespace: "default", Name: pn,
+			perNode[p.Node] = append(perNode[p.Node], &slov1alpha1.PodMetricInfo{Namespace: ns, Name: name,
 				PodUsage: slov1alpha1.ResourceMap{ResourceList: c18Quantities(p.Use)}})
 		}
 	}
